@@ -23,7 +23,7 @@ LEVEL_TEXT = ("For every file and every token-safe line boundary, each insertion
               "report the same functions, names, order, lengths and columns with every line number shifted by exactly the number of lines "
               "inserted above it. Exhaustive within the file set; a variant whose raw Pygments code-token stream differs from the original "
               "(the insertion was not between tokens after all) is counted and skipped, never judged.")
-LEVEL_NOTE = "Trusted: Pygments token stream as the definition of 'between the tokens'. Corpus = corpus/<ext>/ (copied from open-source packages on the image)."
+LEVEL_NOTE = "Trusted: Pygments token stream as the definition of 'between the tokens'. Corpus = corpus/<ext>/ (copied from open-source packages on the image). Comment kinds include a 70 kB comment, a comment mentioning the marker later in its text, two-line trailing comments and texts with ( ) { } ' \" ; ,; BOM-prefixed files; a file-level pass through scan_path under 12 extensions."
 
 CORPUS = core.VERIF / "corpus"
 
